@@ -93,7 +93,7 @@ def _prepare_fun_vag_hessp(
 
             fun_and_grad = value_and_grad(fun)
         else:
-            ValueError("no function specified")
+            raise ValueError("no function specified")
 
     if hessp is None:
         from jax import grad, jvp
